@@ -336,6 +336,13 @@ class SchedRun:
                 self.states_seen.pop()
                 lines = chunk.split(b'\n')[:-1]
                 n = len(lines)
+                if n == 0:
+                    # the write did not land where an append lands (the file shrank first?): cannot tear it, plain kill
+                    self.protocol.append(('append_not_at_old_end', p.req.get('k')))
+                    c.kill(p)
+                    self.sched.append((p.idx, 'AKill'))
+                    p.state = 'dead'
+                    return
                 kind = self.rng.choice(['CutBoundary', 'CutInside', 'CutBeforeNL'])
                 k = self.rng.randrange(0, n + 1) if kind == 'CutBoundary' else self.rng.randrange(0, n)
                 keep = sum(len(l) + 1 for l in lines[:k])
